@@ -329,6 +329,10 @@ def templates():
         ]
     for v in ['rise', 'Peak', 0, 'first']:
         out += [T('find_extrema', 'first_extrema', v, False, lambda c, v=v: find_extrema(c.x, c.fs, c.fr, first_extrema=v))]
+    for v in ['rise', 'Peak', 0, 'first', 'peaks']:
+        # the same unknown value through every public wrapper that forwards options to find_extrema
+        out += [T('compute_cyclepoints', 'first_extrema', v, False, lambda c, v=v: compute_cyclepoints(c.x, c.fs, c.fr, first_extrema=v)),
+                T('compute_cyclepoints', 'first_extrema+boundary', v, False, lambda c, v=v: compute_cyclepoints(c.x, c.fs, c.fr, boundary=0, first_extrema=v))]
     for v in ['peak', 'trough', None]:
         out += [T('find_extrema', 'first_extrema', v, True, lambda c, v=v: find_extrema(c.x, c.fs, c.fr, first_extrema=v)),
                 T('compute_shape_features', 'find_extrema_kwargs.first_extrema', v, False, lambda c, v=v: compute_shape_features(c.x, c.fs, c.fr, find_extrema_kwargs={'first_extrema': v}))]
@@ -358,7 +362,7 @@ def templates():
         out += [T('Bycycle.plot[after rejected fit]', 'thresholds', bad, False, lambda c, bad=bad: _plot_after_rejected_fit(c, thresholds=dict(c.th, **bad)))]
     for kw in [{'burst_method': 'bogus'}, {'center_extrema': 'middle'}]:
         out += [T('Bycycle.plot[after rejected fit]', list(kw)[0], list(kw.values())[0], False, lambda c, kw=kw: _plot_after_rejected_fit(c, thresholds=dict(c.th), **kw))]
-    for v, ok in [(None, True), ('tqdm', True), ('bar', False), ('TQDM', False), (True, False), ('tqdm.gui', False)]:
+    for v, ok in [(None, True), ('tqdm', True), ('bar', False), ('TQDM', False), (True, False), ('tqdm.gui', False), ('tqdm.nbook', False), ('tqdm.Notebook', False), ('tqdm.', False), ('tqdmx', False)]:
         out += [
             T('progress_bar', 'progress', v, ok, lambda c, v=v: list(progress_bar(iter([1, 2]), v, 2))),
             T('compute_features_2d', 'progress', v, ok, lambda c, v=v: compute_features_2d(np.array([c.x, c.x[::-1]]), c.fs, c.fr, {'threshold_kwargs': dict(c.th)}, n_jobs=1, progress=v)),
